@@ -16,6 +16,7 @@ package libp2ptls
 
 import (
 	"context"
+	"crypto"
 	"crypto/ecdsa"
 	"crypto/elliptic"
 	"crypto/rand"
@@ -210,12 +211,18 @@ func vfC01TNewWorld(m, v, h vfC01TKey) (*vfC01TWorld, error) {
 	return w, nil
 }
 
-func vfC01TSignOver(k vfC01TKey, pub any) ([]byte, error) {
-	b, err := x509.MarshalPKIXPublicKey(pub)
+// vfC01TSignOver: the signature the library itself puts into the extension for (identity key,
+// certificate key) - the attacker runs the same software as everybody else, with its own keys
+func vfC01TSignOver(k vfC01TKey, pub crypto.PublicKey) ([]byte, error) {
+	ext, err := GenerateSignedExtension(k.priv, pub)
 	if err != nil {
 		return nil, err
 	}
-	return k.priv.Sign(append([]byte(certificatePrefix), b...))
+	var sk signedKey
+	if _, err := asn1.Unmarshal(ext.Value, &sk); err != nil {
+		return nil, err
+	}
+	return sk.Signature, nil
 }
 
 // craft builds the tls.Certificate list the malicious endpoint presents
